@@ -10,7 +10,7 @@ from ..io_util import BudgetReader, ReadBudgetExceeded
 
 ID = 'C06'
 RULE = ('dumps: small version-2 and version-3 files (<= 14 records from scenario programs so that traces exist, timestamps increasing, decreasing or pairwise inverted; v3 with '
-        'fillers, 1..3 chunks, <= 4 blocks incl. logs) x cut offsets: quick = every structural boundary (sections, chunk headers, blocks, record and record-field boundaries) +-1 and 40 '
+        'fillers, 1..3 chunks (the last one sometimes with 1..63 bytes of an unfinished record counted in its size), <= 4 blocks incl. logs) x cut offsets: quick = every structural boundary (sections, chunk headers, blocks, record and record-field boundaries) +-1 and 40 '
         'pseudo-random offsets; thorough = EVERY offset 0..len of every generated dump. The reader counts read calls '
         'and raises after 8*len+4096 (healthy parsers need <= ~2*len), which turns "spins at end-of-file" into a '
         'deterministic failure. Oracle per cut: iteration stops (StopIteration or an error other than the budget); '
@@ -68,6 +68,10 @@ def build(spec):
         chunks.append(recs[prev:c])
         prev = c
     chunks.append(recs[prev:])
+    if spec.get('odd_tail'):
+        # the size field of the last events chunk is not a multiple of 64: some bytes of an unfinished record follow its
+        # last whole record (whatever the tool makes of them, a cut inside them must still end the parse)
+        chunks[-1] = chunks[-1] + [bytes([0x41 + spec['odd_tail'] % 20]) * spec['odd_tail']]
     v3['chunks'] = chunks
     v3['tm'] = [list(t) + [b''] for t in tm]
     blob = files.build_v3(v3)
@@ -240,6 +244,7 @@ def spec_strategy(version):
         base['pad'] = st.sampled_from([0, 0, 3, 8, 64])
     else:
         base['cuts'] = st.lists(st.integers(0, 1000), max_size=2)
+        base['odd_tail'] = st.sampled_from([0, 0, 0, 1, 8, 37, 63])
         base['v3'] = files.v3_spec(max_events=0, max_n=2, tids=SC.PROGRAM_TIDS[:2], records_strategy=st.just([]), log_copies=1)
     return st.fixed_dictionaries(base)
 
